@@ -132,6 +132,10 @@ DefaultSpec(t) == CASE t = "string" -> Fld("ascii", t, "plain", "-", "text")
                     [] t = "boolean" -> Fld("ascii", t, "absent", "-", "absent")
                     [] t = "complex" -> Fld("ascii", t, "g1", "g2", "native")
 
+(* the same with fills given as text: what the terse notation can say *)
+TextDefaults == {Fld("ascii", "string", "plain", "-", "text"), Fld("ascii", "integer", "g1", "-", "text"),
+                 Fld("ascii", "float", "nan", "-", "text"), Fld("ascii", "boolean", "false", "-", "text"),
+                 Fld("ascii", "complex", "nan", "zero", "text")}
 GoodNames == {"ascii", "mixed", "unicode", "underscore", "keyword", "yamlword"}
 BadNames == {"spaced", "leadingdigit", "hyphen", "emptyname"}
 IsIdentifier(n) == n \in GoodNames
@@ -319,8 +323,11 @@ FaultBases ==
   IF Thorough
   THEN {Sch(AllKeys, dm[1], dm[2], fs) : dm \in {<<"comma", "dash">>, <<"tab", "empty">>, <<"pipe", "word">>},
                                           fs \in One(Defaults) \cup Two(Defaults) \cup Three(Defaults)}
+       \cup {Sch(AllKeys, dm[1], dm[2], fs) : dm \in {<<"comma", "dash">>, <<"semicolon", "slashed">>},
+                                               fs \in One(TextDefaults) \cup Two(TextDefaults) \cup Three(TextDefaults)}
   ELSE      {Sch(AllKeys, "comma", "dash", fs) : fs \in One(Defaults) \cup Two(Defaults)}
        \cup {Sch(AllKeys, "tab", "empty", fs) : fs \in One(Defaults)}
+       \cup {Sch(AllKeys, "comma", "dash", fs) : fs \in One(TextDefaults) \cup Two(TextDefaults)}
        \cup {Sch(AllKeys, "pipe", "word", <<DefaultSpec("string"), DefaultSpec("integer"), DefaultSpec("complex")>>),
              Sch(AllKeys, "pipe", "word", <<DefaultSpec("float"), DefaultSpec("boolean"), DefaultSpec("float")>>)}
 
